@@ -36,8 +36,8 @@ CHECKS = {
          "itself is compared with the implementation on random histories x version pairs x values, top level and embedded "
          "(dynamic route), plus a history compiled version by version with the real macro (static route).",
          "6 C03", "Stated for field codecs that leave the string table alone (fields_neutral; DESIGN 9.4) - the instantiation "
-         "at enc/dec for neutral field types is a separate corollary; evolution on enum variants goes through the same "
-         "record lemma but the variant-level corollary is not stated. " + TB),
+         "at enc/dec for neutral field types is C03_pairs_top (records) and C03_pairs_variant (a constructor at any position of "
+         "any enum, sorted or not). " + TB),
  "C04": ("The reference format of DESIGN section 4 is Codec.enc (concatenative, over byte lists); 21 layout theorems pin "
          "its constants construct by construct for all values (big-endian, zig-zag string length, unsigned byte-array length, "
          "Option/Result tags, count-prefixed sequences, version byte, header/chunk order, position byte sign, enum index). "
